@@ -59,6 +59,19 @@ def load_ref(ref):
     key = vlib.canon(ref)
     if key in _cache:
         return _cache[key]
+    if "exotic" in ref:
+        # a molecule carrying one bond of a type outside e3fp's BOND_TYPES table (dative, zero-order, quadruple ...): the
+        # unchanged library refuses it (KeyError); it must refuse it - or treat it - the same way whatever was processed before
+        base = Chem.AddHs(Chem.MolFromSmiles("OCC(N)CO"))
+        AllChem.EmbedMolecule(base, randomSeed=11)
+        rw = Chem.RWMol(base)
+        bt = {"dative": Chem.BondType.DATIVE, "zero": Chem.BondType.ZERO, "quadruple": Chem.BondType.QUADRUPLE, "hydrogen": Chem.BondType.HYDROGEN}[ref["exotic"]]
+        rw.GetBondBetweenAtoms(0, 1).SetBondType(bt)      # the O-C bond: neighbours from the first iteration on
+        mol = rw.GetMol()
+        mol.UpdatePropertyCache(strict=False)
+        mol.SetProp("_Name", "exotic-" + ref["exotic"])
+        _cache[key] = mol
+        return mol
     if "ideal" in ref:
         # an idealised, exactly symmetric conformer: RDKit's 2D depiction (regular polygons, equal bond lengths) taken as a planar
         # 3D conformer - what idealised builders, depiction-derived inputs and symmetric crystal positions look like
